@@ -188,6 +188,7 @@ pub fn c01(tier: &str) -> Vec<Family> {
     g.tags = TAGS_TIME;
     g.scenarios.retain(|s| s.label.starts_with("lag_above") || s.label.starts_with("lag_no_tolerance"));
     fams.push(g);
+    fams.push(Family::new("far_future", TAGS_TIME, far_future_scenarios(&spec)));
     // Start times before the epoch (-7 s) and crossing it (-1 s + 999_999_998 ns).
     for (name, secs) in [("driver_sequences@-1s", -1i64), ("driver_sequences@-7s", -7)] {
         let sc: Vec<Scenario> = seqs(&alpha, 3).into_iter().enumerate().map(|(i, cmds)| scn(format!("seq#{}", i), &spec, cmds)).collect();
@@ -207,6 +208,39 @@ pub fn c01(tier: &str) -> Vec<Family> {
 /// Picks a family of another property's set by name (never by position).
 fn family_named(fams: Vec<Family>, name: &str) -> Family {
     fams.into_iter().find(|f| f.name == name).unwrap_or_else(|| panic!("no family named {}", name))
+}
+
+/// Deadlines and periods of the order of 10^18 ns (seconds beyond 2^32, offsets close to the
+/// range of a 64-bit nanosecond count), mixed with near ones.
+pub const FAR: i64 = 5_000_000_000_000_000_000;
+pub fn far_future_scenarios(spec: &Arc<BenchSpec>) -> Vec<Scenario> {
+    use Cmd::*;
+    let far_period: u64 = 3_000_000_000_000_000_000;
+    let near = Sched { node: 1, kind: SKind::Once, when: When::Abs(2), tag: 99, val: 1, slot: 0 };
+    let far_abs = Sched { node: 0, kind: SKind::Keyed, when: When::Abs(FAR), tag: 99, val: 2, slot: 0 };
+    let far_rel = Sched { node: 1, kind: SKind::Once, when: When::Rel(FAR as u64 + 7), tag: 99, val: 3, slot: 0 };
+    let far_per = Sched { node: 0, kind: SKind::Periodic(far_period), when: When::Abs(1), tag: 99, val: 4, slot: 1 };
+    let mut sc = vec![];
+    let tails: Vec<(&str, Vec<Cmd>)> = vec![
+        ("steps", vec![Step, Step, Step]),
+        ("until_far", vec![StepUntil(When::Abs(FAR))]),
+        ("until_far+1", vec![StepUntil(When::Abs(FAR + 1)), Step]),
+        ("until_rel_far", vec![Step, StepUntil(When::Rel(FAR as u64)), Step]),
+        ("cancel_then_steps", vec![Cancel { slot: 0 }, Step, Step]),
+    ];
+    for (tn, tail) in &tails {
+        for (hn, head) in [
+            ("abs", vec![near.clone(), far_abs.clone()]),
+            ("rel", vec![far_rel.clone(), near.clone()]),
+            ("periodic", vec![far_per.clone(), near.clone()]),
+            ("all", vec![far_abs.clone(), far_per.clone(), far_rel.clone()]),
+        ] {
+            let mut cmds = head.clone();
+            cmds.extend(tail.clone());
+            sc.push(scn(format!("far/{}/{}", hn, tn), spec, cmds));
+        }
+    }
+    sc
 }
 
 fn zero_period_label(l: &str) -> bool {
@@ -1341,6 +1375,7 @@ pub fn c10(tier: &str) -> Vec<Family> {
         }
         out.push(Family::new("periodic_sources_multi", &["sched_missed", "sched_dup", "sched_wrong_time", "step_time", "sched_overdue", "handler_time", "cmd_time", "delivery_lost", "delivery_dup"], sc_m).cap(cap));
     }
+    out.push(Family::new("far_future", &["sched_missed", "sched_dup", "sched_wrong_time", "step_time", "sched_overdue", "handler_time", "cmd_time"], far_future_scenarios(&spec)).cap(cap));
     // The same series with start times before the epoch and crossing it.
     if let Some(base) = out.first() {
         let thin: Vec<Scenario> = base.scenarios.iter().enumerate().filter(|(i, _)| tier != "quick" || i % 4 == 0).map(|(_, s)| s.clone()).collect();
